@@ -184,6 +184,11 @@ Plan generate_plan(const std::string& prop, unsigned long long vseed, unsigned l
             int im = (int)p.mgrs.size() - 1;
             for (auto& o : p.ops) if ((o.kind == OP_NORMALIZE || o.kind == OP_MAKEOWNER) && r.chance(300)) o.mgr = im;
         }
+        if (r.chance(300)) {   // one run in three also sweeps the allocation failures of one call (ledger oracles only)
+            std::vector<int> elig;
+            for (int i = 0; i < (int)p.ops.size(); i++) { int k = p.ops[(size_t)i].kind; if (k == OP_PARSE || k == OP_ADDBASE || k == OP_REMOVEBASE || k == OP_NORMALIZE || k == OP_MAKEOWNER || k == OP_DISSECT || k == OP_COMPOSE_MALLOC) elig.push_back(i); }
+            if (!elig.empty()) { int t = r.pick(elig); p.ops[(size_t)t].fail_k = K_ALL; p.target = t; }
+        }
     } else if (prop == "C03") {
         gen::TextCfg tc = hc.text; tc.mutate_per1024 = r.pick(std::vector<int>{0, 200, 400, 700}); tc.max_len = thorough ? 64 : 40;
         Op o; o.kind = OP_PARSE; o.a = 0;
@@ -209,14 +214,37 @@ Plan generate_plan(const std::string& prop, unsigned long long vseed, unsigned l
         if (hc.text.mutate_per1024 > 120) hc.text.mutate_per1024 = 60;
         p.ops = gen::history(r, hc);
     } else if (prop == "C11") {
-        hc.w_free = 2; hc.min_ops = 2; hc.max_ops = thorough ? 9 : 7; hc.refree = false;
+        hc.w_free = 2; hc.min_ops = 2; hc.max_ops = thorough ? 8 : 6; hc.refree = false;
         if (hc.text.mutate_per1024 > 120) hc.text.mutate_per1024 = 60;
         p.ops = gen::history(r, hc);
         // near duplicates of earlier texts into free slots
         std::vector<std::string> seen;
         for (auto& o : p.ops) if (o.kind == OP_PARSE) seen.push_back(o.text);
-        int extra = r.range(1, 3);
-        for (int i = 0; i < extra && !seen.empty(); i++) { Op o; o.kind = OP_PARSE; o.a = 8 + i; o.text = near_duplicate(r, r.pick(seen)); o.entry = 3; p.ops.push_back(o); if (r.chance(300)) { Op n; n.kind = OP_NORMALIZE; n.a = 8 + i; n.entry = 1; n.opt = r.range(1, 63); p.ops.push_back(n); } }
+        int extra = r.range(0, 2), slot = 8;
+        for (int i = 0; i < extra && !seen.empty(); i++) { Op o; o.kind = OP_PARSE; o.a = slot++; o.text = near_duplicate(r, r.pick(seen)); o.entry = 3; p.ops.push_back(o); if (r.chance(300)) { Op n; n.kind = OP_NORMALIZE; n.a = o.a; n.entry = 1; n.opt = r.range(1, 63); p.ops.push_back(n); } }
+        // component-wise twins: the same reference with exactly one component changed (or none)
+        {
+            gen::TextCfg tc = hc.text;
+            gen::UriParts base = gen::random_parts(r, tc);
+            Op o; o.kind = OP_PARSE; o.a = slot++; o.text = base.render(); o.entry = r.range(0, 5); p.ops.push_back(o);
+            int twins = r.range(1, 3);
+            for (int i = 0; i < twins && slot < 15; i++) {
+                std::string what; gen::UriParts t = gen::edit_one(r, r.chance(700) ? base : gen::edit_one(r, base, &what), &what);
+                Op q; q.kind = OP_PARSE; q.a = slot++; q.text = t.render(); q.entry = r.range(0, 5); p.ops.push_back(q);
+                if (r.chance(250)) { Op n; n.kind = r.chance(500) ? OP_MAKEOWNER : OP_NORMALIZE; n.a = q.a; n.entry = 1; n.opt = r.range(1, 63); p.ops.push_back(n); }
+            }
+        }
+        // the same buffer parsed as a shorter range (same first pointer, different afterLast)
+        if (r.chance(400) && slot < 15) {
+            std::vector<int> parses; for (int i = 0; i < (int)p.ops.size(); i++) if (p.ops[(size_t)i].kind == OP_PARSE && p.ops[(size_t)i].text.size() > 1) parses.push_back(i);
+            if (!parses.empty()) {
+                int src = r.pick(parses);
+                if (p.ops[(size_t)src].entry == 1 || p.ops[(size_t)src].entry == 2 || p.ops[(size_t)src].entry == 4) p.ops[(size_t)src].entry = 3;
+                Op o; o.kind = OP_PARSE; o.a = slot++; o.c = src; o.entry = r.chance(500) ? 3 : 0; o.text = p.ops[(size_t)src].text;
+                o.window = r.range(1, (int)o.text.size() - (r.chance(300) ? 0 : 1));
+                p.ops.push_back(o);
+            }
+        }
     } else if (prop == "C12") {
         hc.w_free = 2; hc.min_ops = 2; hc.max_ops = thorough ? 7 : 5; hc.w_makeowner = 4;
         if (hc.text.mutate_per1024 > 120) hc.text.mutate_per1024 = 60;
@@ -348,6 +376,11 @@ static bool same_class(const Plan& cand, const std::string& prop, const std::str
     return false;
 }
 
+// after erasing op `erased`: parse ops that share the buffer of another op refer to it by op index
+static void fix_op_refs(Plan& p, int erased) {
+    for (auto& o : p.ops) if (o.kind == OP_PARSE && o.c >= 0) { if (o.c == erased) o.c = -1; else if (o.c > erased) o.c--; }
+}
+
 Plan shrink_plan(const Plan& start, const Verdict& v0, int* reruns) {
     const std::string prop = start.property;
     const std::string klass = v0.klass(prop);
@@ -370,6 +403,7 @@ Plan shrink_plan(const Plan& start, const Verdict& v0, int* reruns) {
             cand.ops.erase(cand.ops.begin() + i);
             if (cand.target == i) continue;
             if (cand.target > i) cand.target--;
+            fix_op_refs(cand, i);
             if (try_plan(cand)) { changed = true; if (i > (int)best.ops.size()) i = (int)best.ops.size(); }
         }
         if (!changed) break;
@@ -433,6 +467,7 @@ Plan shrink_plan(const Plan& start, const Verdict& v0, int* reruns) {
         if (cand.target == i) continue;
         cand.ops.erase(cand.ops.begin() + i);
         if (cand.target > i) cand.target--;
+        fix_op_refs(cand, i);
         try_plan(cand);
         if (i > (int)best.ops.size()) i = (int)best.ops.size();
     }
